@@ -146,7 +146,7 @@ CollectPaths(C, X, js, i, prevParent) ==
   IF i > Len(js) \/ C.res # "ok" THEN C
   ELSE LET j == js[i]  n == X.nodes[j] IN
        IF n.a # "" THEN CErr(C, "annotation", j, "kw")
-       ELSE IF n.parent # 0 /\ PathIdOf(X, n.parent) \in BlankPaths THEN CErr(C, "incorrectpath", j, "kw")
+       ELSE IF n.parent # 0 /\ PathIdOf(X, n.parent) \in RefusedPaths THEN CErr(C, "incorrectpath", j, "kw")
        ELSE IF n.parent # 0 /\ PathIdOf(X, n.parent) # "" /\ (\E x \in 1..Len(Params(PathIdOf(X, n.parent))) : Params(PathIdOf(X, n.parent))[x].name = "")
             THEN CErr(C, "emptyparam", j, "kw")                    \* the path the Path directive describes is parsed here, errors stand on Path
        ELSE IF n.parent # 0 /\ PathIdOf(X, n.parent) # "" /\ HasDupParam(PathIdOf(X, n.parent)) THEN CErr(C, "dupparam", j, "kw")
@@ -163,7 +163,7 @@ MissedPaths(C, X, js, i) ==
   ELSE LET j == js[i]  n == X.nodes[j]  pid == PathIdOf(X, j) IN
        IF n.k \notin (Methods \cup {"URL"}) \/ KidsOfKind(X, j, "Path") # <<>> THEN MissedPaths(C, X, js, i + 1)
        ELSE IF pid = "" THEN CErr(C, "pathnotfound", j, "kw")
-       ELSE IF pid \in BlankPaths THEN CErr(C, "incorrectpath", j, "kw")
+       ELSE IF pid \in RefusedPaths THEN CErr(C, "incorrectpath", j, "kw")
        ELSE IF \E x \in 1..Len(Params(pid)) : Params(pid)[x].name = "" THEN CErr(C, "emptyparam", j, "kw")
        ELSE IF HasDupParam(pid) THEN CErr(C, "dupparam", j, "kw")
        ELSE MissedPaths(C, X, js, i + 1)
@@ -286,7 +286,7 @@ AddNode(C, X, j) ==
               IN [C EXCEPT !.types = Append(@, [name |-> Name1(n), annotation |-> n.a, schema |-> s])]
     [] n.k = "URL" ->
          IF n.a # "" THEN CErr(C, "annotation", j, "kw")
-         ELSE IF Name1(n) = "" \/ n.p[1] \in BlankPaths THEN CErr(C, "incorrectpath", j, "kw")
+         ELSE IF Name1(n) = "" \/ n.p[1] \in RefusedPaths THEN CErr(C, "incorrectpath", j, "kw")
          ELSE LET C1 == CheckPathParams(C, n.p[1], j) IN
               IF C1.res # "ok" THEN C1
               ELSE IF n.p[1] \in C.uniqUrl THEN CErr(C1, "duppath", j, "kw")
@@ -298,7 +298,7 @@ AddNode(C, X, j) ==
                       ELSE [C1 EXCEPT !.uniqUrl = @ \cup {n.p[1]}]
     [] n.k \in Methods ->
          IF PathIdOf(X, j) = "" THEN CErr(C, "pathnotfound", j, "kw")
-         ELSE IF PathIdOf(X, j) \in BlankPaths THEN CErr(C, "incorrectpath", j, "kw")
+         ELSE IF PathIdOf(X, j) \in RefusedPaths THEN CErr(C, "incorrectpath", j, "kw")
          ELSE LET pid == PathIdOf(X, j)  C1 == CheckPathParams(C, pid, j)  id == InterId(X, j) IN
               IF C1.res # "ok" THEN C1
               ELSE IF InterIdx(C1, id) # 0 THEN CErr(C1, "dupinteraction", j, "kw")
@@ -402,8 +402,10 @@ AddNode(C, X, j) ==
          ELSE IF C.inters[ii].opid # "" THEN CErr([C EXCEPT !.opIds = @ \cup {Name1(n)}], "notunique", j, "kw")
          ELSE [C EXCEPT !.opIds = @ \cup {Name1(n)}, !.inters[ii].opid = Name1(n)]
     [] n.k = "Tags" ->     \* the directive is checked by itself too (a URL-level Tags that every method overrides is used by nobody)
-         LET names == Dedup(n.p) IN
-         IF n.a # "" THEN CErr(C, "annotation", j, "kw")
+         LET names == Dedup(n.p)
+             sibs == IF n.parent = 0 THEN <<>> ELSE KidsOfKind(X, n.parent, "Tags") IN
+         IF sibs # <<>> /\ sibs[1] # j THEN CErr(C, "notunique", j, "kw")     \* only the first Tags of a directive is ever looked up
+         ELSE IF n.a # "" THEN CErr(C, "annotation", j, "kw")
          ELSE IF names = <<>> THEN CErr(C, "noparam", j, "kw")
          ELSE IF \E x \in 1..Len(names) : ~Declared(C, names[x]) THEN CErr(C, "tagnotfound", j, "kw")
          ELSE C
